@@ -179,7 +179,7 @@ def _enum_grid(tier):
     cases = []
     for nu in range(1, 7):
         for nv in range(1, 7):
-            for mode in ("scalar", "vector", "default", "vector-after-read"):
+            for mode in ("scalar", "vector", "default", "vector-after-read", "bumps-after-read"):
                 cases.append({"nu": nu, "nv": nv, "mode": mode, "sx": 2.0 + nu, "sy": 3.0 + nv})
     return cases
 
@@ -193,6 +193,17 @@ def check_grid(case, ctx):
     plain.generate(nu, nv)
     pts = plain.grid
     count = (nu + 1) * (nv + 1)
+    if mode == "bumps-after-read":
+        if nu < 2 or nv < 2:
+            ctx.label("grid-too-small-for-a-bump")
+            return
+        w = [0.5 + 0.25 * ((3 * i) % 7) for i in range(count)]
+        g.weight = list(w)
+        _ = g.grid
+        g.bumps(1, bump_height=3.0, base_extent=1)          # edits the z-values of some grid points (position chosen by the library)
+        pts = CPGen.Grid.grid.fget(g)                        # the generator's current (unweighted) grid points
+        ctx.nt(True, "per-point-weights")
+        ctx.check(any(p[2] == 3.0 for row in pts for p in row), "bumps-no-effect", "bumps() did not raise any grid point")
     ctx.nt(nu != nv, "non-square")
     ctx.nt(mode.startswith("vector"), "per-point-weights")
     if mode == "scalar":
@@ -205,7 +216,7 @@ def check_grid(case, ctx):
         _ = g.grid
         w = [0.5 + 0.25 * ((5 * i) % 13) for i in range(count)]
         g.weight = list(w)
-    else:
+    elif mode == "default":
         w = [1.0] * count
     got = g.grid
     ctx.check(len(got) == nu + 1 and all(len(r) == nv + 1 for r in got), "grid-shape", "weighted grid has shape %r" % [len(r) for r in got])
@@ -213,7 +224,7 @@ def check_grid(case, ctx):
         for j in range(nv + 1):
             wi = w[i * (nv + 1) + j]
             want = [c * wi for c in pts[i][j]] + [wi]
-            ctx.check(_pts_equal([got[i][j]], [want]), "grid-point-weight" if mode != "vector-after-read" else "grid-stale-after-weight-change",
+            ctx.check(_pts_equal([got[i][j]], [want]), "grid-point-weight" if mode not in ("vector-after-read", "bumps-after-read") else "grid-stale-after-" + ("weight-change" if mode == "vector-after-read" else "bumps"),
                       "grid[%d][%d] = %r, expected point %r times its own weight %r (mode %s, %dx%d)" % (i, j, got[i][j], pts[i][j], wi, mode, nu + 1, nv + 1))
     ctx.check(list(g.weight) == [float(x) for x in w], "grid-weights-vector", "weight vector is %r" % (g.weight,))
 
